@@ -414,7 +414,7 @@ func c02Explore(r *rep.R, scn c02Scn, bound int, idx *int64) {
 			default:
 				r.Outcome("error:other")
 			}
-			if len(o.Applied) > 0 && *idx%977 == 0 {
+			if len(o.Applied) > 0 && r.WantSample() {
 				r.Sample(map[string]any{"scenario": tag, "choices": ch.Choices, "mutations": o.Applied, "error": o.Err})
 			}
 			return
